@@ -4,7 +4,7 @@ cd "$(dirname "$0")/spec" || exit 1
 rc=0
 for f in *.tla; do
   out=$(tla-sany "$f" 2>&1)
-  if echo "$out" | grep -q -E "Parsing or semantic analysis failed|\*\*\* Errors|Abort"; then echo "SANY FAILED: $f"; echo "$out" | tail -20; rc=1; fi
+  if echo "$out" | grep -q -E "Parsing or semantic analysis failed|\*\*\* Errors|Abort|Parse Error|Fatal errors|Could not parse"; then echo "SANY FAILED: $f"; echo "$out" | tail -20; rc=1; fi
 done
 /venv/bin/python -c "import sys; sys.path.insert(0,'/repo'); import odml, lxml, yaml, rdflib; assert odml.__file__.startswith('/repo/'), odml.__file__" || rc=1
 mkdir -p ../build ../evidence ../replays
